@@ -66,7 +66,64 @@ func nulClass(d []byte) string {
 	return "plain"
 }
 
+// concurrentLogins: a gateway that logs in to several carriers at once. Two to four tasks build their login with the
+// library's constructors under the seeded scheduler (which can switch tasks wherever the library - or a change to it -
+// takes a lock or touches an atomic, see cmd/instrument); every login must carry the digest of ITS credentials.
+func concurrentLogins(r *core.Run) {
+	c := r.C
+	n := 2 + c.Intn(3)
+	type built struct {
+		flavour       int
+		account, secr string
+		auth          string
+		ts            uint32
+	}
+	res := make([]built, n)
+	s := core.NewSched(r)
+	s.SwitchP = [2]int{1, 1}
+	defer installSched(s)()
+	for i := 0; i < n; i++ {
+		i := i
+		fl := c.Intn(2) * 2 // cmpp20 or smgp30: the two protocols with a constructor
+		res[i] = built{flavour: fl, account: string(c.Blob(1+c.Intn(6), "print")), secr: string(c.Blob(1+c.Intn(20), "print"))}
+		s.Go(fmt.Sprintf("client-%d", i), func() {
+			b := &res[i]
+			r.Call("login constructor", func() {
+				if b.flavour == 0 {
+					p := cmpp20.NewConnect(b.account, b.secr, uint32(100+i))
+					b.auth, b.ts = p.AuthenticatorSource, p.Timestamp
+				} else {
+					p := smgp30.NewLogin(b.account, b.secr, uint32(100+i))
+					b.auth, b.ts = p.AuthenticatorClient, p.Timestamp
+				}
+			})
+		})
+	}
+	if msg := s.Run(100000, nil); msg != "" {
+		r.Fail("C15", "liveness", "login constructors", "stuck", "%s", msg)
+		return
+	}
+	r.Probe("concurrent_logins")
+	for i, b := range res {
+		zeros, name := 9, "cmpp20.NewConnect"
+		if b.flavour == 2 {
+			zeros, name = 7, "smgp30.NewLogin"
+		}
+		want := indepDigest(b.account, zeros, b.secr, b.ts)
+		if b.auth != string(want) {
+			r.Fail("C15", "wire", name, "concurrent", "client %d of %d logging in at the same time: the authenticator is not MD5 over its own credentials and timestamp %010d", i+1, n, b.ts)
+			return
+		}
+	}
+}
+
 func runLogin(r *core.Run) {
+	if r.Cfg.Index%8 == 2 {
+		concurrentLogins(r)
+		if len(r.Findings) > 0 {
+			return
+		}
+	}
 	// a gateway answers login N and then verifies login N+1: state left behind by one exchange
 	// (pooled hash states, cached strings) must not leak into the next
 	n := 1 + r.C.Intn(3)
